@@ -11,6 +11,15 @@ def withPos (tok : String) (k : Pos → String) : String :=
 def fmtOutcome (over : Bool) (w : Color) (road : Bool) (wf bf : Nat) : String :=
   s!"{if over then 1 else 0} {colorStr w} {if road then "road" else "flats"} {wf} {bf}"
 
+-- `scratchHash` (the internal hash field recomputed from the stacks) is `Tak.scratchHash` in Impl/Move.lean
+
+def applySeq (basis : Array W) (p : Pos) (tok : String) : Option Pos :=
+  if tok == "-" then some p else
+  (tok.splitOn ";").foldl (fun acc mt =>
+    match acc, parseMove mt with
+    | some q, some m => (match q.apply basis m with | .ok r => some r | .error _ => none)
+    | _, _ => none) (some p)
+
 def handleCore : Handler := fun st op args =>
   match op, args with
   | "basis", vs =>
@@ -48,6 +57,28 @@ def handleCore : Handler := fun st op args =>
   | "dump", [ptok] => some (st, withPos ptok fun p => fmtPos p)
   | "equal", [a, b] =>
     some (st, withPos a fun p => withPos b fun q => if p.equal q then "1" else "0")
+  | "mhash", [ptok, mtok] =>
+    some (st, withPos ptok fun p =>
+      match parseMove mtok with
+      | none => "bad-move"
+      | some m =>
+        match p.apply st.basis m with
+        | .ok q => s!"{q.hashOf.toNat} {q.hash.toNat} {(scratchHash st.basis q).toNat}"
+        | .error e => fmtErr e)
+  | "trans", [ptok, sa, sb] =>
+    some (st, withPos ptok fun p =>
+      match applySeq st.basis p sa, applySeq st.basis p sb with
+      | none, _ => "errA"
+      | _, none => "errB"
+      | some a, some b =>
+        let same := Spec.abs a == Spec.abs b
+        s!"eq={if a.equal b then 1 else 0} ha={a.hashOf.toNat} hb={b.hashOf.toNat} same={if same then 1 else 0}")
+  | "rebuild", [ptok] =>
+    some (st, withPos ptok fun p =>
+      let board := (Spec.abs p).squares.map (fun sq => sq.map Piece.code)
+      match Pos.fromSquares st.basis p.cfg board p.move with
+      | .ok q => s!"eq={if p.equal q then 1 else 0} h={p.hashOf.toNat} hq={q.hashOf.toNat}"
+      | .error e => fmtErr e)
   | _, _ => none
 
 end Driver
